@@ -1023,6 +1023,19 @@ package gohlslib
 //@   ensures result
 //@ end
 
+//@ func verifLemmaCodecRoundTrip
+//@   props C09
+//@   lemma
+//@   requires c != nil && ref(c) != 0
+//@   ensures is(c, *codecs.H264) ==> (is(result, *codecs.H264) && result.(*codecs.H264).SPS == c.(*codecs.H264).SPS && result.(*codecs.H264).PPS == c.(*codecs.H264).PPS)
+//@   ensures is(c, *codecs.H265) ==> (is(result, *codecs.H265) && result.(*codecs.H265).VPS == c.(*codecs.H265).VPS && result.(*codecs.H265).SPS == c.(*codecs.H265).SPS && result.(*codecs.H265).PPS == c.(*codecs.H265).PPS)
+//@   ensures is(c, *codecs.AV1) ==> (is(result, *codecs.AV1) && result.(*codecs.AV1).SequenceHeader == c.(*codecs.AV1).SequenceHeader)
+//@   ensures is(c, *codecs.VP9) ==> (is(result, *codecs.VP9) && result.(*codecs.VP9).Width == c.(*codecs.VP9).Width && result.(*codecs.VP9).Height == c.(*codecs.VP9).Height
+//@        && result.(*codecs.VP9).Profile == c.(*codecs.VP9).Profile && result.(*codecs.VP9).BitDepth == c.(*codecs.VP9).BitDepth)
+//@   ensures is(c, *codecs.Opus) ==> (is(result, *codecs.Opus) && result.(*codecs.Opus).ChannelCount == c.(*codecs.Opus).ChannelCount)
+//@   ensures is(c, *codecs.MPEG4Audio) ==> is(result, *codecs.MPEG4Audio)
+//@ end
+
 //@ func verifLemmaSpan
 //@   props C03
 //@   lemma
@@ -1130,7 +1143,10 @@ package gohlslib
 //@ end
 
 //@ func clientTimeConvFMP4.getNTP
-//@   props C13
+//@   props C09 C10 C13
+//@   ensures result != nil ==> old(ts.ntpAvailable)
+//@   ensures result != nil ==> *result == old(ts.ntpValue) + timestampToDuration(timestamp - multiplyAndDivide(old(ts.ntpTimestamp), clockRate, old(ts.ntpClockRate)), clockRate)
+//@   ensures result != nil ==> fresh(result)
 //@   requires unheld(&ts.mutex) && ctx != nil && clockRate > 0 && (ts.ntpAvailable ==> ts.ntpClockRate > 0)
 //@ end
 
